@@ -116,16 +116,61 @@ Section Generic.
     | _ => (1, [])
     end.
 
-  (** PopUntil b: [Some x] = returned sum (= b), [None] = EOF *)
-  Fixpoint pop_until (fuel : nat) (q : cq) (b : id) : outcome (option id * cq) :=
+  (** PopUntil b: loop { PopInsertParents; EOF -> return EOF; error -> return it;
+      sum = b -> return sum }.  Result (returned sum or [None] = EOF, queue afterwards,
+      the commits popped by this call in order).  An error discards the state. *)
+  Fixpoint pop_until (fuel : nat) (q : cq) (b : id) : outcome (option id * cq * list id) :=
     match fuel with
     | O => Fuel
     | S f =>
         match pop_insert_parents q with
-        | PEof => Ok (None, q)
+        | PEof => Ok (None, q, [])
         | PErr => Err
-        | POk x q' => if N.eqb x b then Ok (Some x, q') else pop_until f q' b
+        | POk x q' =>
+            if N.eqb x b then Ok (Some x, q', [x])
+            else match pop_until f q' b with
+                 | Ok (r, q'', l) => Ok (r, q'', x :: l)
+                 | Err => Err
+                 | Fuel => Fuel
+                 end
         end
+    end.
+
+  (** RemoveAncestors(sums): q2 := NewCommitsQueue(sums) is ONE queue shared by the loop
+      over q.sums and consumed progressively: an element is dropped when q2 has already
+      seen it, otherwise q2 pops (inserting parents) until it returns that element
+      (dropped) or reaches EOF (kept) - that inner loop is textually the loop of PopUntil.
+      The result of [ra_loop] is the list of kept elements: the compaction loop at the end
+      of the Go function keeps the elements whose index is not in indicesToRemove, in
+      order.  Any error leaves q untouched and is returned; q.seen is not changed. *)
+  Fixpoint ra_loop (items : list id) (q2 : cq) : outcome (list id) :=
+    match items with
+    | [] => Ok []
+    | x :: r =>
+        if seen q2 x then ra_loop r q2
+        else match pop_until walk_fuel q2 x with
+             | Ok (Some _, q2', _) => ra_loop r q2'
+             | Ok (None, q2', _) =>
+                 match ra_loop r q2' with
+                 | Ok kept => Ok (x :: kept)
+                 | Err => Err
+                 | Fuel => Fuel
+                 end
+             | Err => Err
+             | Fuel => Fuel
+             end
+    end.
+
+  Definition remove_ancestors (q : cq) (sums : list id) : outcome cq :=
+    match new_queue sums with
+    | Ok q2 =>
+        match ra_loop (q_items q) q2 with
+        | Ok kept => Ok (mk_cq kept (q_seen q))
+        | Err => Err
+        | Fuel => Fuel
+        end
+    | Err => Err
+    | Fuel => Fuel
     end.
 End Generic.
 
@@ -146,3 +191,5 @@ Definition t_insert (g : graph) := insert g (ins_time g).
 Definition t_new_queue (g : graph) := new_queue g (srt_time g).
 Definition t_pop_insert_parents (g : graph) := pop_insert_parents g (ins_time g).
 Definition t_walk (g : graph) := walk g (ins_time g) (srt_time g).
+Definition t_pop_until (g : graph) := pop_until g (ins_time g) (walk_fuel g).
+Definition t_remove_ancestors (g : graph) := remove_ancestors g (ins_time g) (srt_time g).
